@@ -3,7 +3,7 @@
 set -e
 n=$1
 d=/tmp/seed/$n
-git -C /repo worktree add --detach $d 7ea6fd1 >/dev/null 2>&1
+git -C /repo worktree add --detach $d ${2:-7ea6fd1} >/dev/null 2>&1
 cp /repo/Cargo.lock $d/Cargo.lock
 mkdir -p $d/target
 cp -r --reflink=auto /repo/target/debug $d/target/debug 2>/dev/null || true
